@@ -23,6 +23,7 @@ TEMPLATES = {
 LEVELS = {
     'quick': [
         {'name': 'L1-N3-M3', 'N': 3, 'M': 3, 'namings': ['id'], 'budget_s': 100},
+        {'name': 'L1b-N3-M3-K2', 'N': 3, 'M': 3, 'K': 2, 'namings': ['id'], 'evented': 1, 'budget_s': 90},
         {'name': 'L2-N4-M2', 'N': 4, 'M': 2, 'namings': ['rev'], 'budget_s': 100},
         {'name': 'L3-TQ-M3', 'templates': ['TQ'], 'M': 3, 'namings': ['id', 'rev'], 'evented': 1, 'budget_s': 90},
     ],
@@ -51,7 +52,7 @@ def shards(level):
                                                                           evented_only=bool(level.get('evented'))))
         return out
     sk = cg.skeletons(level['N'], [cg.BASIC, cg.COMPOUND, cg.ORTH])
-    return cg.split_shards(sk, level['M'], nevents=1)
+    return cg.split_shards(sk, level['M'], nevents=1, evented_only=bool(level.get('evented')))
 
 
 def expand(job, level):
@@ -84,19 +85,31 @@ def region_of(cm, a, b):
 
 
 def harness(g, chart, level, canary=False):
-    from sismic.exceptions import NonDeterminismError, ConflictingTransitionsError
     namings = level.get('namings', ['id'])
     naming = namings[g.choice('naming', len(namings))]
     m = len(chart['tr'])
     g.const_hash = True
     prio = [g.int('p%d' % t) for t in range(m)]
-    inst = Inst(g, chart, naming, priorities=prio, guard_key=lambda t, k: 'g%d' % t)
-    cm, it = inst.cm, inst.it
+    inst = Inst(g, chart, naming, priorities=prio)
     inst.init()
+    # K macro steps on one interpreter: an earlier, error-free step must not change the verdict of a later one
+    for k in range(level.get('K', 1)):
+        if not one_step(g, inst, k, prio, canary):
+            return
+    g.sample({'chart': inst.cm.describe(), 'outcome': 'ok', 'steps': level.get('K', 1)})
+
+
+def one_step(g, inst, k, prio, canary):
+    """returns True if the step ran without error (so that a further step makes sense)"""
+    from sismic.exceptions import NonDeterminismError, ConflictingTransitionsError
+    cm, it = inst.cm, inst.it
+    m = len(cm.tr)
     conf = it.configuration
     active = {cm.idx[c] for c in conf}
-    inst.step_no = 0
-    gb = [inst.bit(t, 0) for t in range(m)]
+    if not conf:
+        return False
+    inst.step_no = k
+    gb = [inst.bit(t, k) for t in range(m)]
     src = [t[0] for t in cm.tr]
     tgt = [t[1] for t in cm.tr]
     evn = [cg.EVENTS[t[2]] for t in cm.tr]
@@ -126,17 +139,19 @@ def harness(g, chart, level, canary=False):
                 cf_pairs.append(both)
     ND = Or(nd_pairs + [False])
     CF = Or(cf_pairs + [False])
-    info = lambda: {'chart': cm.describe(), 'conf': conf, 'outcome': outcome}   # noqa: E731
-    ctx_before = {k: v for k, v in it.context.items() if k not in ('G', 'A', 'P')}
-    st, err, log = inst.step(0, 'a')
+    info = lambda: {'chart': cm.describe(), 'conf': conf, 'outcome': outcome, 'step': k}   # noqa: E731
+    ctx_before = {k_: v for k_, v in it.context.items() if k_ not in ('G', 'A', 'P')}
+    st, err, log = inst.step(k, 'a')
     outcome = 'ok' if err is None else type(err).__name__
     if err is None:
         g.prove_all([('no_error_means_no_nondeterminism', Not(ND), info),
                      ('no_error_means_no_conflict', Not(CF), info)])
         if st is not None and len(st.transitions) >= 2:
             g.witness('parallel_ok')
-        g.sample({'chart': cm.describe(), 'outcome': outcome})
-        return
+        # an eventless step leaves `a` pending: consume it quietly so that the next step starts clean
+        if st is not None and st.event is None:
+            inst.step(100 + k, None, frozen=True)
+        return True
     if isinstance(err, NonDeterminismError):
         g.prove(ND, 'nondeterminism_error_only_if_nondeterministic_pair', info)
         g.witness('nondeterminism_reported')
@@ -151,14 +166,15 @@ def harness(g, chart, level, canary=False):
         g.fail('unexpected_exception', info)
     # nothing exited, entered, executed or consumed
     touched = [e for e in log if e[0] != 'guard']
-    ctx_after = {k: v for k, v in it.context.items() if k not in ('G', 'A', 'P')}
+    ctx_after = {k_: v for k_, v in it.context.items() if k_ not in ('G', 'A', 'P')}
     g.prove(not touched and it.configuration == conf and ctx_after == ctx_before,
             'error_leaves_everything_untouched',
             lambda: {'chart': cm.describe(), 'log': log, 'conf': it.configuration})
-    st2, err2, log2 = inst.step(1, None, frozen=True)
+    st2, err2, log2 = inst.step(200 + k, None, frozen=True)
     g.prove(err2 is None and st2 is not None and st2.event is not None and st2.event.name == 'a'
             and not st2.transitions and it.configuration == conf,
             'event_still_pending_after_error',
             lambda: {'chart': cm.describe(), 'step': micro_summary(inst, st2), 'err': repr(err2)})
     g.witness('nothing_changed_after_error')
-    g.sample({'chart': cm.describe(), 'outcome': outcome})
+    g.sample({'chart': cm.describe(), 'outcome': outcome, 'step': k})
+    return False
